@@ -102,7 +102,8 @@ pub fn avote(v: &v2::ReplicaCommit) -> AVote {
 }
 
 pub fn ph(p: &validator::PayloadHash) -> u64 {
-    fx_hash(&zksync_protobuf::encode(p))
+    use zksync_protobuf::ProtoFmt as _;
+    fx_hash(&p.build().keccak256)
 }
 
 /// A commit certificate by its semantic content (signers dropped).
